@@ -180,7 +180,9 @@ func runEager(sc *scenario, scratch string) ([]map[string]any, error) {
 				open++
 			}
 		}
-		if open == 0 || time.Since(last) > 3*time.Second || time.Since(start) > 30*time.Second {
+		// a stall is only declared after a long silence: under machine load a fetch can take seconds,
+		// while a real stall lasts for good
+		if open == 0 || time.Since(last) > 10*time.Second || time.Since(start) > 40*time.Second {
 			break
 		}
 		select {
